@@ -4,7 +4,7 @@ from .. import family, mapcase
 
 PROPS_FILES = ['theories/Props/C06.v']
 FINDINGS_FILES = []
-LEVEL = 'other'
+LEVEL = 'proof'
 TRUSTED = ['Model/Data.v arrive: what each reader (pandas CSV/Excel, pyarrow, SQLAlchemy/SQLite, jsonpath, ElementTree, DuckDB) hands over for a NULL -- modelled, not verified; measured by this correspondence for every kind',
            'Model/Spec.v sval: NULL, a missing value and every na_values token are null']
 ASSUMES = ['string-valued cells (typed columns: C11); column names are plain identifiers for the non-CSV kinds']
